@@ -589,3 +589,125 @@ def run(tier, seed):
                             "in KOptOps.tla); sampler draws are checked to lie in that set"],
                            time.time() - t0, n_new)
     return 1 if n_new else 0
+
+
+# ---------------------------------------------------------------------------------------------------------------
+# C06 for the improvement environments (called from the C06 check)
+# ---------------------------------------------------------------------------------------------------------------
+def _rec_of(order):
+    rec = [0] * len(order)
+    for i, v in enumerate(order):
+        rec[v] = order[(i + 1) % len(order)]
+    return rec
+
+
+def c06_cases(tier, seed):
+    """candidate successor arrays: valid tours and single-fault corruptions (the classes are only labels for the report;
+    feasibility is decided by TLC)"""
+    import itertools
+
+    rnd = random.Random(seed)
+    cases = []
+
+    def add(kind, n, rec, fault):
+        cases.append({"kind": kind, "n": n, "rec": list(rec), "fault": fault})
+
+    for kind, sizes in (("kopt", (4, 5)), ("pdp", (5,))):
+        for n in sizes:       # every permutation of the nodes used as successor array (tours, subtours, self loops)
+            for perm in itertools.permutations(range(n)):
+                add(kind, n, perm, "permutation")
+    big = [("kopt", 6), ("kopt", 10), ("pdp", 7), ("pdp", 11)] + ([] if tier == "quick" else [("kopt", 20), ("pdp", 21)])
+    for kind, n in big:
+        for _ in range(12 if tier == "quick" else 60):
+            h = n // 2
+            order = list(range(1, n))
+            rnd.shuffle(order)
+            order = [0] + order
+            if kind == "pdp":       # make it precedence-feasible: put each pair in pickup-delivery order
+                pos = {v: i for i, v in enumerate(order)}
+                for p in range(1, h + 1):
+                    if pos[p] > pos[p + h]:
+                        i, j = pos[p], pos[p + h]
+                        order[i], order[j] = order[j], order[i]
+                        pos[p], pos[p + h] = j, i
+            rec = _rec_of(order)
+            add(kind, n, rec, "valid")
+            # two nodes point to the same successor (one node is never visited)
+            i, j = rnd.sample(range(n), 2)
+            r = list(rec)
+            r[i] = r[j]
+            add(kind, n, r, "shared-successor")
+            # the cycle cut into two subtours
+            a, b = sorted(rnd.sample(range(n), 2))
+            r = list(rec)
+            r[order[a]], r[order[b]] = rec[order[b]], rec[order[a]]
+            add(kind, n, r, "two-subtours")
+            # a 2-cycle and the rest
+            full = _two_cycles(order[:2], order[2:], n)
+            add(kind, n, full, "2-cycle-plus-rest")
+            # a node skipped: its predecessor points past it, it points to itself
+            k = rnd.randrange(1, n)
+            r = list(rec)
+            v = order[k]
+            r[order[k - 1]] = rec[v]
+            r[v] = v
+            add(kind, n, r, "node-missing")
+            if kind == "pdp":       # one delivery before its pickup
+                p = rnd.randrange(1, h + 1)
+                o = list(order)
+                i, j = o.index(p), o.index(p + h)
+                o[i], o[j] = o[j], o[i]
+                add(kind, n, _rec_of(o), "delivery-before-pickup")
+                # pickups in a subtour of their own, deliveries on the depot's cycle
+                add(kind, n, _two_cycles([0] + list(range(h + 1, n)), list(range(1, h + 1)), n), "pickups-in-own-subtour")
+    return cases
+
+
+def _two_cycles(c1, c2, n):
+    rec = [0] * n
+    for c in (c1, c2):
+        for k, v in enumerate(c):
+            rec[v] = c[(k + 1) % len(c)]
+    return rec
+
+
+def c06_violations(tier, seed):
+    """the real check_solution_validity of TSPkoptEnv / PDPRuinRepairEnv (reading td["rec_best"]) against the
+    classification of the same successor arrays by spec/improve/TourClass.tla; returns (violations, number of cases)"""
+    logging.disable(logging.WARNING)
+    torch.set_num_threads(1)
+    cases = c06_cases(tier, seed)
+    wd, root = prepare("c09_c06class", "TourClass")
+    f = os.path.join(wd, "cases.ndjson")
+    tlc.dump_ndjson(f, [{k: c[k] for k in ("kind", "n", "rec")} for c in cases])
+    tlc.write_cfg(wd, root, invariants=["Classify"])
+    r = tlc.run(wd, root, workers=4, env={"TRACE_FILE": f}, heap="3g")
+    if r.violated:
+        raise tlc.TLCError("TourClass: %s" % r.violated)
+    feas = {t[1] - 1: t[2] for t in r.tuples("CLS")}
+    if len(feas) != len(cases):
+        raise tlc.TLCError("TourClass: %d of %d cases classified" % (len(feas), len(cases)))
+    envs = {}
+    viol = []
+    for i, c in enumerate(cases):
+        key = (c["kind"], c["n"])
+        if key not in envs:
+            envs[key] = make_env(c["kind"], c["n"], 2)
+        env = envs[key]
+        td = TensorDict({"rec_best": torch.tensor([c["rec"]])}, batch_size=[1])
+        try:
+            env.check_solution_validity(td)
+            accepted, msg = True, ""
+        except AssertionError as e:
+            accepted, msg = False, str(e)
+        if accepted != feas[i]:
+            label = "pdp_ruin_repair" if c["kind"] == "pdp" else "tsp_kopt"
+            viol.append({"property": "C06", "env": label,
+                         "monitor": "checker-accepts-infeasible" if accepted else "checker-rejects-feasible",
+                         "cls": ("subtours" if sorted(c["rec"]) == list(range(c["n"])) else c["fault"]) if accepted else c["fault"],
+                         "inst": {"n": c["n"], "rec_best(successor array)": c["rec"], "case": c["fault"]}, "actions": [],
+                         "detail": "check_solution_validity %s; by the problem definition (single cycle through all nodes%s) "
+                                   "the tour is %s" % ("accepts" if accepted else "rejects (%s)" % msg,
+                                                       ", pickups before deliveries" if c["kind"] == "pdp" else "",
+                                                       "feasible" if feas[i] else "infeasible")})
+    return viol, len(cases)
